@@ -95,20 +95,25 @@ def program(disp_faults: bool = True, body_raises: bool = True, max_leaves: int 
                 st.integers(0, 1), st.sampled_from(["Exception", "ExcSubclass"]), st.integers(0, 3), st.sampled_from(["Exception", "ExcSubclass", "BaseExc"]),
             )  # fmt: skip
             body = st.one_of(body, body, body, body, early)
+        # "prep": the scope OBJECT is created one or two blocks further out (`s = ctx.scope(...)` in one place, `async with s:`
+        # in another) - where it was created decides nothing about whose tasks are whose
         a_scope = st.builds(
-            lambda n, s, d, dobj, b: {"k": "scope", "mode": "async", "name": n, "state": s, "disp": d, "disp_obj": dobj, "body": b},
-            names, svs, st.one_of(st.none(), st.lists(disp, min_size=1, max_size=3)), st.booleans(), body,
+            lambda n, s, d, dobj, b, prep: {"k": "scope", "mode": "async", "name": n, "state": s, "disp": d, "disp_obj": dobj, "body": b, "prep": prep},
+            names, svs, st.one_of(st.none(), st.lists(disp, min_size=1, max_size=3)), st.booleans(), body, st.sampled_from([0, 0, 0, 0, 1, 2]),
         )  # fmt: skip
         s_scope = st.builds(lambda n, s, b: {"k": "scope", "mode": "sync", "name": n, "state": s, "disp": None, "body": b}, names, svs, body)
         upd = st.builds(lambda s, b: {"k": "updated", "state": s, "body": b}, svs, body)
         return st.one_of(a_scope, a_scope, s_scope, upd)
 
     block = st.recursive(blocks(leaf_ops), blocks, max_leaves=max_leaves)
+    # the outermost scope may have a disposable of its own that starts a background task while it is being entered
+    root_disp = st.one_of(st.none(), st.none(), st.none(), st.builds(lambda g: [{"enter": {"b": "ok", "spawn": g}, "yields": None, "exit": {"b": "ok"}, "as": "list"}], st.integers(0, 3)))
     outer = st.builds(
-        lambda s, inner, tail: {"k": "scope", "mode": "async", "name": "root", "state": s, "disp": None, "disp_obj": False, "body": [*inner, *tail]},
+        lambda s, inner, tail, rd: {"k": "scope", "mode": "async", "name": "root", "state": s, "disp": rd, "disp_obj": False, "body": [*inner, *tail]},
         st.lists(P.sv_strategy(), min_size=1, max_size=3),
         st.lists(block, min_size=1, max_size=2),
         st.lists(leaf_ops, max_size=1),
+        root_disp,
     )
     releases = st.lists(st.tuples(st.sampled_from([0.5, 1, 2, 4, 6]), st.integers(0, 3)).map(list), max_size=4)
     pre = st.lists(spawn, max_size=1) if top_spawn else st.just([])
@@ -137,6 +142,35 @@ def resource_program():
             "releases": [],
         },
         st.integers(1, 2), st.integers(0, 2), end, st.booleans(),
+    )  # fmt: skip
+
+
+def prepared_program():
+    """three nested async scopes where the innermost scope OBJECT was created further out (before the middle one was entered);
+    after the innermost block has been left the middle block spawns: that task is the middle scope's"""
+    def scope(name, body, prep=0):
+        return {"k": "scope", "mode": "async", "name": name, "state": [], "disp": None, "disp_obj": False, "body": body, "prep": prep}
+
+    return st.builds(
+        lambda prep, g, pause, e: {
+            "body": [
+                scope("root", [
+                    scope("outer", [
+                        scope("middle", [
+                            scope("inner", [{"k": "yield"}], prep=prep),
+                            {"k": "spawn", "via": "ctx", "body": [{"k": "wait", "gate": g}]},
+                            *([{"k": "yield"}] * pause),
+                            *([e] if e else []),
+                        ]),
+                        {"k": "probe", "lookups": [], "fp": True},
+                        {"k": "sleep", "t": 0.5},
+                    ]),
+                ]),
+                {"k": "probe", "lookups": [], "fp": True},
+            ],
+            "releases": [[4, g]],
+        },
+        st.sampled_from([1, 2, 2]), st.integers(0, 3), st.integers(0, 2), st.sampled_from([None, None, {"k": "raise", "exc": "Exception"}]),
     )  # fmt: skip
 
 
